@@ -152,6 +152,32 @@ func runC05(c *Ctx) {
 			c.ob("C05-R2", fnKey(d)+"#router-match", d.Pos(), false, "dispatcher does not consult Router.Match")
 			continue
 		}
+		// the method a request is matched under is the one on its request line: nothing a header says goes into it
+		{
+			fromHeader := func(v ssa.Value) bool {
+				return derivesFrom(v, func(z ssa.Value) bool {
+					cl, ok := z.(*ssa.Call)
+					if !ok {
+						return false
+					}
+					switch callName(cl) {
+					case "net/http.Header.Get", "net/http.Header.Values", "net/url.Values.Get", "net/http.Request.FormValue", "net/http.Request.PostFormValue":
+						return true
+					}
+					return false
+				})
+			}
+			bad := len(match.Call.Args) > 1 && fromHeader(match.Call.Args[1])
+			// ... nor is the request's Method field rewritten before the match
+			for _, f := range withAnon(d) {
+				eachInstr(f, func(_ *ssa.BasicBlock, _ int, ins ssa.Instruction) {
+					if st, ok := ins.(*ssa.Store); ok && isStoreToField(st, "Request", "Method") {
+						bad = true
+					}
+				})
+			}
+			c.ob("C05-R2", fnKey(d)+"#matched-under-the-method-of-the-request-line", match.Pos(), !bad, "the method handed to Router.Match can come from a header or query value (a method override applied to every request): a GET that carries the header runs the DELETE body declared for the same path, and a method with no declaration runs another method's body instead of answering 404")
+		}
 		errs := extractOf(match, 2)
 		isHandlerCall := func(x ssa.Instruction) bool {
 			cl, ok := x.(*ssa.Call)
